@@ -535,6 +535,14 @@ def reached_under(func, node, env):
         return _NOVAL
 
     def truth(t):
+        if isinstance(t, (ast.Name, ast.Constant)):
+            v = ev(t)
+            if v is not _NOVAL:
+                try:
+                    return bool(v)
+                except Exception:
+                    return None
+            return None
         if isinstance(t, ast.UnaryOp) and isinstance(t.op, ast.Not):
             r = truth(t.operand)
             return None if r is None else not r
